@@ -82,7 +82,7 @@ theorem lay_append : ∀ (l1 l2 : List (Nat × Bytes)) (off : Nat),
     simp only [List.cons_append, lay, layEndM, ih.1, ih.2, List.append_assoc, and_self]
 
 theorem placeFile_empty (pol : UInt8) (buf : Bytes) (off attrs : Nat) :
-    placeFile pol buf off attrs [] = .error .fatal := by
+    placeFile pol buf off attrs [] = .error .err := by
   unfold placeFile
   rw [if_pos (show ([] : Bytes).length = 0 from rfl)]
 
